@@ -199,6 +199,21 @@ pub fn check(r: &RunResult, rep: &mut Report) {
 				.iter()
 				.map(|h| hook_arg(&h.rec.argv, "hook").unwrap_or(""))
 				.collect();
+			// A pending authorization offering the configured type is worked on whatever status the CA
+			// shows for the individual challenge: going on to the next request of the order (the poll)
+			// without any hook and without a response is not solving it.
+			if !want_hooks.is_empty() && mine.is_empty() && ch.posted.is_empty() {
+				let went_on = ca.posts.iter().any(|p| p.order == Some(o.id) && p.tx > fetch_tx);
+				if went_on {
+					rep.add(Violation::new(
+						"C05",
+						"pending_authorization_not_worked_on",
+						&want_type,
+						phase,
+						format!("authorization for {} fetched as pending (challenge {} shown as {:?}): no challenge hook ran, no response was sent, the daemon went on", wire, want_type, ch.status),
+					));
+				}
+			}
 			let all_ok = same_type.iter().all(|h| h.code == Some(Some(0)));
 			if all_ok && got_hooks != want_hooks && !ch.posted.is_empty() {
 				rep.add(Violation::new(
